@@ -123,7 +123,7 @@ def p_angle(rng, metas, objs):
 
 
 def p_radius(rng, metas, objs):
-    return {"r": rng.choice([1, 2, 0.5, 3])}
+    return {"r": rng.choice([1, 2, 0.5, 3, 1, 2, 0, -1])}
 
 
 def p_index(rng, metas, objs):
@@ -151,6 +151,10 @@ def p_index(rng, metas, objs):
         else:
             idx.append(Ellipsis)
             break
+    if len(shape) >= 3 and rng.random() < 0.08:  # non-adjacent advanced indices
+        idx = [[rng.randrange(shape[0]) for _ in range(2)], slice(None), [rng.randrange(shape[2]) for _ in range(2)]]
+    if shape and shape[0] and rng.random() < 0.03:
+        return {"idx": {"f": [float(rng.randrange(shape[0]))]}}
     if sum(1 for i in idx if i is Ellipsis) > 1:
         idx = [i for i in idx if i is not Ellipsis]
     t = tuple(idx) if len(idx) != 1 or rng.random() < 0.3 else idx[0]
@@ -163,6 +167,8 @@ def p_perm(rng, metas, objs):
     r = len(m["shape"])
     if rng.random() < 0.3 or r - nfree < 2:
         return {"perm": None}
+    if rng.random() < 0.3:  # cycle notation: a shorter list
+        return {"perm": rng.sample(range(nfree, r), 2)}
     tail = list(range(nfree, r))
     rng.shuffle(tail)
     return {"perm": list(range(nfree)) + tail}
@@ -492,6 +498,17 @@ Op("diagram_copy_copy", [TEN_BOUND, TEN_BOUND],
    api=("TensorDiagram.__copy__", "TensorDiagram.copy"))
 Op("replace_ellipsis", [ANY], lambda a, p: repr(__import__("geometer.utils.indexing", fromlist=["x"]).replace_ellipsis(
     a[0].rank, (Ellipsis, 0))), api="utils.replace_ellipsis")
+
+DIAG = S("diagram")
+Op("diagram_calculate", [DIAG], lambda a, p: a[0].calculate(), weight=3, api="TensorDiagram.calculate")
+Op("diagram_copy_calculate", [DIAG], lambda a, p: a[0].copy().calculate(), weight=2,
+   api=("TensorDiagram.copy", "TensorDiagram.calculate"))
+Op("div_tt", [ANY, ANY], lambda a, p: a[0] / a[1], api="Tensor.__truediv__")
+Op("sub_list", [S(("line", "plane"), coll=False)], lambda a, p: a[0] - [1] * (a[0].shape[-1] - 1) , api="SubspaceTensor.__sub__")
+Op("bad_dtype", [], lambda a, p: Tensor(["a", "b"]), api="Tensor._validate_tensor")
+Op("plane_from_wrong_type", [PT], lambda a, p: Plane(a[0]), api="Plane")
+Op("rmul_list2", [S("any", coll=False, pred=lambda m: m["base"] != "diagram" and len(m["shape"]) == 2)],
+   lambda a, p: np.eye(a[0].shape[0]).tolist() * a[0], api="Tensor.__rmul__")
 
 # utils on the coordinate arrays of pool objects (the arrays are the operands' own data)
 Op("u_det", [SQUARE], lambda a, p: U.det(a[0].array), api="utils.det")
